@@ -105,6 +105,7 @@ fn main() {
         "node_commit" => auth::commit(&args),
         "node_check" => auth::check_candidate(&args),
         "session_mirror" => auth::mirror(&args),
+        "session_announce" => auth::announce(&args),
         "elect" => cluster::elect(&args),
         "elect_search" => cluster::elect_search(&args),
         "frame_len" => cluster::frame_len(&args),
